@@ -416,13 +416,24 @@ def w_manager_history(ctx, rng, i):
     assigned = []   # (value object handed in, name)
     for step in range(n_ops):
         op = ["set", "set", "set", "get", "delete", "iterate", "copy", "assign_to_owner", "transform_owner", "none_key",
-              "edit_assigned", "bad_dims", "bad_type", "edit_stored"][rng.integers(0, 14)]
+              "edit_assigned", "bad_dims", "bad_type", "edit_stored", "set_own_group", "set_own_group"][rng.integers(0, 16)]
         if op == "set":
             name = NAMES[rng.integers(0, len(NAMES))]
             val = gen.shape(rng, None, d=d, n=int(rng.integers(3, 7)))
             lm[name] = val
             model[name] = digest(val)
             assigned.append((val, name))
+        elif op == "set_own_group" and model:
+            # a group fetched from this very manager assigned back under another (or the same) name: still an owned copy
+            src_name = list(model)[rng.integers(0, len(model))]
+            name = NAMES[rng.integers(0, len(NAMES))]
+            val = lm[src_name]
+            lm[name] = val
+            model[name] = digest(val)
+            if name != src_name:
+                # editing the group under its old name must not reach the new one
+                perturb(lm[src_name].points)
+                model[src_name] = digest(lm[src_name])
         elif op == "get" and model:
             name = list(model)[rng.integers(0, len(model))]
             if digest(lm[name]) != model[name]:
